@@ -221,7 +221,7 @@ Definition curved_frame (a0 a1 : V3) : M3 :=
    The harness measures which one /repo shows. *)
 Definition mk_curved (fixed sph : bool) (a0 a1 : V3) (r : T) : option det3d :=
   if norm3 (cross3 a0 a1) =? 0 then None
-  else if negb (dot3 a0 a1 =? 0) then None     (* axes not perpendicular *)
+  else if tiny * norm3 a0 * norm3 a1 <? nabs (dot3 a0 a1) then None     (* axes not perpendicular (rel. 1e-10) *)
   else if r <=? 0 then None
   else match (if fixed then Some (curved_frame a0 a1) else curved_rot a0 a1) with
        | None => None
@@ -332,12 +332,11 @@ Definition par3d_frommatrix (m : M3) (tr : V3) : option par3d :=
 Definition par3a_frommatrix (m : M3) (tr : V3) : option par3a :=
   mk_par3a (mv3 m (0, 0, 1)) (Some (mv3 m (0, 1, 0))) (Some (mv3 m (1, 0, 0), mv3 m (0, 0, 1))) tr.
 
-(* __getitem__ rebuilds the geometry from stored attributes.
-   Parallel2dGeometry passes det_pos_init=self.det_pos_init (which already CONTAINS the
-   translation) together with translation=self.translation; [fixed = true] models the
-   repaired code that passes the un-translated position. *)
-Definition par2d_getitem (fixed : bool) (g : par2d) (axis_arg : option V2) : option par2d :=
-  mk_par2d (if fixed then sub2 (p2_pos g) (p2_tr g) else p2_pos g) axis_arg (p2_tr g).
+(* __getitem__ rebuilds the geometry from stored attributes.  Parallel2dGeometry passes
+   det_pos_init=self._det_pos_init_arg, the un-translated position the geometry was built with, which is
+   det_pos_init - translation (fix 388a3ff; before it the translated position was passed and translated again). *)
+Definition par2d_getitem (g : par2d) (axis_arg : option V2) : option par2d :=
+  mk_par2d (sub2 (p2_pos g) (p2_tr g)) axis_arg (p2_tr g).
 Definition par3a_getitem (g : par3a) : option par3a :=
   mk_par3a (pa_axis g) (pa_pos_arg g) (pa_axes_arg g) (pa_tr g).
 
@@ -453,4 +452,9 @@ Definition cone_factory_halfwidth (rho rs rd : T) : T := of_Z 2 * rho * (rs + rd
    negative side of the central ray) through the point with coordinates (xn along the
    central ray, xt along the detector axis) meets a flat detector at distance rd *)
 Definition fan_hit (rs rd xn xt : T) : T := (rs + rd) * xt / (rs + xn).
+(* helical_geometry: offset_along_axis = space.partition.min_pt[2], pitch = space.partition.extent[2] / num_turns *)
+Definition helical_params (zmin zmax turns : T) : T * T := (zmin, (zmax - zmin) / turns).
+(* cone_beam_geometry, 3-d: h = 2 sin(half_cone_angle) (rs + rd) with half_cone_angle = arctan(t),
+   t = max(|min_z|, |max_z|) / (rs - rho); sin(arctan t) = t / sqrt(1 + t^2).  Half height before the pixel round-up: *)
+Definition cone_factory_halfheight (t rs rd : T) : T := t / rt (1 + t * t) * (rs + rd).
 End Model.
